@@ -296,6 +296,13 @@ func (r *c20Run) exec(th *c20Thread, op, fn string) (string, []int) {
 			err = nil
 		}
 		return es(err), c20Set(b[:n])
+	case "ReadP": // the io.Reader method (single-chunk file: one call returns everything)
+		b := make([]byte, 64)
+		n, err := th.fd.Read(b)
+		if err == io.EOF || err == io.ErrUnexpectedEOF {
+			err = nil
+		}
+		return es(err), c20Set(b[:n])
 	case "FdFlush":
 		return es(th.fd.Flush()), nil
 	case "Close":
@@ -356,6 +363,16 @@ func (r *c20Run) exec(th *c20Thread, op, fn string) (string, []int) {
 		return es(Mv(r.rt, "/d", "/e")), nil
 	case "RootFlush":
 		return es(r.rt.Flush()), nil
+	case "RootClose":
+		return es(r.rt.Close()), nil
+	case "FlushMemFree":
+		return es(r.rt.FlushMemFree(r.ctx)), nil
+	case "PutNodeSub":
+		th.nnew++
+		return es(PutNode(r.rt, fmt.Sprintf("/d/p%d_%d", th.idx, th.nnew), dag.NodeWithData(ft.FilePBData(nil, 0)))), nil
+	case "MkdirOps":
+		th.nnew++
+		return es(Mkdir(r.rt, fmt.Sprintf("/d/k%d_%d", th.idx, th.nnew), MkdirOpts{Flush: true})), nil
 	case "RootSetMode":
 		return es(r.root.SetMode(os.FileMode(0o700 + th.idx))), nil
 	case "AddChild", "SubAddChild": // a new name: state-changing (program level only)
@@ -531,6 +548,8 @@ func c20Sess(name, f string) [][2]string {
 		return [][2]string{{"OpenWn", f}, {"FdFlush", f}, {"Write", f}, {"Close", f}, {"OpenWn", f}, {"FdFlush", f}, {"Close", f}}
 	case "R":
 		return [][2]string{{"OpenR", f}, {"Read", f}, {"Close", f}}
+	case "Rp":
+		return [][2]string{{"OpenR", f}, {"ReadP", f}, {"Close", f}}
 	case "Wa": // the other write APIs, each one in the descriptor state "flushed"
 		return [][2]string{{"OpenW", f}, {"WriteAt", f}, {"FdFlush", f}, {"Trunc", f}, {"FdFlush", f}, {"WriteAt", f}, {"Close", f}}
 	}
@@ -545,7 +564,8 @@ var c20SubOps = []string{"SubSetMode", "SubSetModTime", "ChmodSub", "TouchSub", 
 	"SubList", "SubListNames", "SubLookup", "SubUnlink"}
 
 // state-changing directory operations: recorded alone, model-checked at program level only
-var c20ProgOnly = []string{"DirFlush", "Uncache0", "RootFlush", "AddChild", "SubAddChild", "MkdirNew", "SubFlush", "MvSub"}
+var c20ProgOnly = []string{"DirFlush", "Uncache0", "RootFlush", "RootClose", "FlushMemFree", "AddChild", "SubAddChild",
+	"PutNodeSub", "MkdirNew", "MkdirOps", "SubFlush", "MvSub"}
 
 // c20FdSessions = spec FdAll(f): Open (sync | not sync), every sequence of at most depth calls out of
 // Write / WriteAt / Trunc / FdFlush, Close.
@@ -624,7 +644,7 @@ func c20Record(t *testing.T) {
 		// every operation (and every descriptor state of Flush/Close) alone on a fresh root
 		var list [][][2]string
 		for _, f := range c20Files {
-			for _, n := range []string{"W", "W2", "W0", "Wn", "Wn0", "Wnf", "R", "Wa"} {
+			for _, n := range []string{"W", "W2", "W0", "Wn", "Wn0", "Wnf", "R", "Rp", "Wa"} {
 				list = append(list, c20Sess(n, f))
 			}
 			for _, n := range c20Singles {
@@ -664,7 +684,7 @@ func c20Record(t *testing.T) {
 		}
 		switch k := rnd.Intn(10); {
 		case k < 3:
-			return c20Sess([]string{"W", "Wn", "R", "Wa"}[rnd.Intn(4)], f)
+			return c20Sess([]string{"W", "Wn", "R", "Wa", "Rp"}[rnd.Intn(5)], f)
 		case k < 7:
 			return c20Sess(c20Singles[rnd.Intn(len(c20Singles))], f)
 		case k < 8:
@@ -872,7 +892,7 @@ func c20Replay(b c20Beh, stepTimeout, hangWait time.Duration) M {
 			var got []int
 			r.mu.Lock()
 			for _, e := range r.events {
-				if e["ev"] == "ret" && e["t"] == s.T && e["op"] == "Read" {
+				if e["ev"] == "ret" && e["t"] == s.T && (e["op"] == "Read" || e["op"] == "ReadP") {
 					got, _ = e["toks"].([]int)
 				}
 			}
